@@ -68,3 +68,12 @@ ALL_FAMILIES += [("gr", ""), ("gr", "llgr")]
 PROP_INFO["C11"] = {"level": "exploration", "rule": WORLD_RULE + " Mode pack: announcements carry padded COMMUNITIES (10..9000 entries, around the 255-octet and 4096-octet boundaries; beyond 4096 only from extended-message neighbours), bursts of 50..2100 prefixes sharing one attribute set, so that the coalescing sender packs schedule-dependent batches; framing, per-message size limit and the C01 view equality are checked, and a route whose single-route UPDATE exceeds a session's maximum must simply be absent there.", "probes": ["burst", "oversize_route_for_session"], "budget": {"quick": 60, "thorough": 1200}}
 SUITES["C11"] = {"quick": [{"family": "world", "mode": "pack", "share": 1}], "thorough": [{"family": "world", "mode": "pack", "share": 1}]}
 ALL_FAMILIES += [("world", "pack")]
+
+PROP_INFO["C15"] = {"level": "exploration", "rule": "metamorphic pairs: 3-5 neighbours (eBGP/iBGP/RR client), a pool of 4 generated policies (prefix-set / neighbour-set / community conditions; reject, set-med, set-local-pref, add-community actions), global import/export assignment (P0 -> P1) changed for import, export or both; run A = history under P0, then the change and the corresponding soft reset in/out/both (or ROUTE-REFRESH from the peers) issued concurrently with further announcements/withdrawals, then the same reset again; run B = the same history under P1 from the start. Final Loc-RIB and all peer views of A and B must be equal, and the repeated reset must change no view. NON-TRIVIAL: both runs completed with a policy change that alters at least one assignment; DISTINCT by (schedule signature, event-log hash).", "probes": ["soft_reset", "route_refresh_sent"], "budget": {"quick": 60, "thorough": 1200}}
+SUITES["C15"] = {"quick": [{"family": "reset", "mode": "", "share": 1}], "thorough": [{"family": "reset", "mode": "", "share": 1}]}
+ALL_FAMILIES += [("reset", "")]
+
+SUITES["C20"] = {"quick": [{"family": "world", "mode": "", "share": 2}, {"family": "fsm", "mode": "", "share": 1}, {"family": "gr", "mode": "", "share": 1}],
+                 "thorough": [{"family": "world", "mode": "", "share": 3}, {"family": "world", "mode": "addpath", "share": 1}, {"family": "fsm", "mode": "", "share": 2}, {"family": "gr", "mode": "", "share": 1}, {"family": "wire", "mode": "fuzz", "share": 1},
+                              {"family": "world", "mode": "", "share": 3, "race": True}, {"family": "fsm", "mode": "", "share": 1, "race": True}, {"family": "gr", "mode": "", "share": 1, "race": True}]}
+PROP_INFO["C20"]["rule"] = "all simulation families (world, fsm, gr, wire; thorough: also with the race detector on the same seeded schedules): every run ends with Stop / StopBgp / delete-all-peers at the point the script reached; monitors: process crash (panic), no scheduling progress for 20 s of real time (hang/deadlock watchdog), synctest deadlock detection, goroutines of the bubble left after shutdown (stack dump), connections handed to the daemon still open after shutdown, data race reports. NON-TRIVIAL: the run executed at least one quiescent check; DISTINCT by (schedule signature, event-log hash)."
